@@ -76,6 +76,8 @@ func (fr *frame) call(c *ssa.CallCommon, ins ssa.Instruction, desc string) Val {
 		args = append(args, fr.argVal(fr.val(a)))
 	}
 	callee := c.StaticCallee()
+	fr.curCall = c
+	defer func() { fr.curCall = nil }()
 	var bindings []Val
 	if callee == nil {
 		fv := fr.val(c.Value)
@@ -105,7 +107,7 @@ func (fr *frame) callNoContract(callee *ssa.Function, args, bindings []Val, resT
 	vc := fr.vc
 	full := callee.String()
 	if vc.P.isPure(callee) {
-		return fr.pureCall(callee, args, resT)
+		return fr.pureCall(callee, fr.expandVarargs(args), resT)
 	}
 	if vc.P.inlinable(callee, fr) {
 		return fr.inline(callee, args, bindings, resT)
@@ -138,6 +140,42 @@ func shortName(s string) string {
 	return s
 }
 
+// expandVarargs: a variadic pure call f(a, b) passes a freshly built [N]T array;
+// its elements become separate arguments of the uninterpreted function.
+func (fr *frame) expandVarargs(args []Val) []Val {
+	if fr.curCall == nil || len(args) == 0 {
+		return args
+	}
+	c := fr.curCall
+	if !c.Signature().Variadic() || len(c.Args) != len(args) {
+		return args
+	}
+	last := c.Args[len(c.Args)-1]
+	sl, ok := last.(*ssa.Slice)
+	if !ok || sl.Low != nil || sl.High != nil {
+		return args
+	}
+	al, ok := sl.X.(*ssa.Alloc)
+	if !ok || al.Comment != "varargs" {
+		return args
+	}
+	at, ok := under(al.Type().(*types.Pointer).Elem()).(*types.Array)
+	if !ok || at.Len() > 8 {
+		return args
+	}
+	v := args[len(args)-1]
+	if fr.vc.sortOf(v.T) != sSlice {
+		return args
+	}
+	out := append([]Val(nil), args[:len(args)-1]...)
+	comp := fr.vc.elemComp(at.Elem())
+	for i := int64(0); i < at.Len(); i++ {
+		t := app("select", app("select", fr.vc.get(fr.mem, comp), app("sarr", v.S)), app("bvadd", app("soff", v.S), bvLit(64, uint64(i))))
+		out = append(out, Val{T: at.Elem(), S: t})
+	}
+	return out
+}
+
 // pureCall: result is an uninterpreted function of the (term) arguments.
 func (fr *frame) pureCall(callee *ssa.Function, args []Val, resT types.Type) Val {
 	vc := fr.vc
@@ -160,6 +198,9 @@ func (fr *frame) pureCall(callee *ssa.Function, args []Val, resT types.Type) Val
 	}
 	mk := func(i int, t types.Type) Val {
 		name := "pure:" + callee.String()
+		if callee.Signature.Variadic() {
+			name += fmt.Sprintf("/%d", len(sorts))
+		}
 		if i >= 0 {
 			name += fmt.Sprintf(".%d", i)
 		}
@@ -362,20 +403,20 @@ func (fr *frame) applyContract(con *Contract, callee *ssa.Function, sig *types.S
 	post.mem, post.old = fr.mem, old
 	post.setResult(res)
 	if noret {
-		fr.panicExitFromCallee("true", "no-return call "+cname+" at "+pos, con, post)
+		fr.panicExitFromCallee("true", "no-return call "+cname, con, post)
 		fr.guard = "false"
 		return fr.freshResult(cname, resT)
 	}
 	if hasPanics && panicCond != "false" {
 		pc := vc.define(fr.pfx+"pc:"+shortName(cname), sBool, panicCond)
-		fr.panicExitFromCallee(pc, "panic in "+cname+" at "+pos, con, post)
+		fr.panicExitFromCallee(pc, "panic in "+cname, con, post)
 		fr.guard = vc.define(fr.pfx+"g", sBool, and(fr.guard, not(pc)))
 	} else if len(con.clauses("may_panic")) > 0 {
 		pc := vc.fresh(fr.pfx+"maypanic:"+shortName(cname), sBool)
 		for _, cl := range con.clauses("panics_if") {
 			vc.assume(implies(env.evalBool(cl.Expr), pc))
 		}
-		fr.panicExitFromCallee(pc, "panic in "+cname+" at "+pos, con, post)
+		fr.panicExitFromCallee(pc, "panic in "+cname, con, post)
 		fr.guard = vc.define(fr.pfx+"g", sBool, and(fr.guard, not(pc)))
 	}
 	for _, cl := range con.clauses("ensures") {
